@@ -73,7 +73,7 @@ def ref_prop_single(segments, one_is_b=True):
 
 
 SCENARIOS = {
-    "C11": ["rabi", "zero_drive", "bit_order", "detection_errors", "sampling_dist", "v2_duration", "v2_duration", "state_prep"],
+    "C11": ["rabi", "zero_drive", "bit_order", "detection_errors", "sampling_dist", "v2_duration", "v2_duration", "state_prep", "leak_sampling"],
     "C07": ["ramsey"],
     "C15": ["drift"],
 }
@@ -337,6 +337,45 @@ def run_prep(p, stats):
     return []
 
 
+def gen_leak(rng):
+    return {"basis": G.pick(rng, ["digital", "XY", "ground-rydberg"]), "omega": round(rng.uniform(3.0, 9.0), 3), "duration": rng.randint(150, 500), "rate": G.pick(rng, [1.0, 3.0]), "shots": 100000, "np_seed": rng.getrandbits(31)}
+
+
+def run_leak(p, stats):
+    """Leakage to the error state x: a measurement reports it as 0, like every
+    state other than the basis' 'one' state."""
+    import qutip
+    from pulser import Pulse
+    from pulser_simulation import QutipEmulator, SimConfig
+    from scipy.stats import binom
+
+    seq, ids = _seq(p["basis"])
+    seq.declare_channel("ch", BASIS_CH[p["basis"]][0])
+    seq.add(Pulse.ConstantPulse(p["duration"], p["omega"], 0.0, 0.0), "ch")
+    seq.measure(p["basis"])
+    # documented orderings with the error state last: (r, g, x), (g, h, x), (u, d, x)
+    one_idx = {"ground-rydberg": 0, "digital": 1, "XY": 1}[p["basis"]]
+    op = np.zeros((3, 3))
+    op[2, one_idx] = 1.0  # the 'one' state leaks into x
+    cfg = SimConfig(noise=("leakage", "eff_noise"), eff_noise_opers=[qutip.Qobj(op)], eff_noise_rates=[p["rate"]])
+    emu = QutipEmulator.from_sequence(seq, config=cfg)
+    res = emu.run()
+    rho = res.get_final_state().full()
+    if rho.shape != (3, 3):
+        return [("C11/leakage-dimension", f"final state of a leakage run has shape {rho.shape}")]
+    p_one, p_x = float(rho[one_idx, one_idx].real), float(rho[2, 2].real)
+    np.random.seed(p["np_seed"])
+    counts = res.sample_final_state(p["shots"])
+    k1 = counts.get("1", 0)
+    pval = min(binom.cdf(k1, p["shots"], min(max(p_one, 0.0), 1.0)), binom.sf(k1 - 1, p["shots"], min(max(p_one, 0.0), 1.0)))
+    stats["sim_ns"] += p["duration"]
+    if p_x > 0.05:
+        stats["probe/leaked_population_sampled"] += 1
+    if pval < 1e-9:
+        return [("C11/bitstring-convention", f"{p['basis']} with leakage: population of the 'one' state {p_one:.4f}, of x {p_x:.4f}; measured 1 in {k1} of {p['shots']} shots (binomial tail {pval:.2e}): x must read as 0")]
+    return []
+
+
 def gen_dist(rng):
     return {"basis": G.pick(rng, ["ground-rydberg", "digital", "XY"]), "n": rng.randint(1, 3), "omega": round(rng.uniform(2.0, 10.0), 3), "duration": rng.randint(40, 300)}
 
@@ -473,5 +512,5 @@ def run_drift(p, stats):
     return []
 
 
-GEN = {"state_prep": gen_prep, "v2_duration": gen_v2dur, "rabi": gen_rabi, "zero_drive": gen_zero, "bit_order": gen_bits, "detection_errors": gen_det, "sampling_dist": gen_dist, "ramsey": gen_ramsey, "drift": gen_drift}
-RUN = {"state_prep": run_prep, "v2_duration": run_v2dur, "rabi": run_rabi, "zero_drive": run_zero, "bit_order": run_bits, "detection_errors": run_det, "sampling_dist": run_dist, "ramsey": run_ramsey, "drift": run_drift}
+GEN = {"leak_sampling": gen_leak, "state_prep": gen_prep, "v2_duration": gen_v2dur, "rabi": gen_rabi, "zero_drive": gen_zero, "bit_order": gen_bits, "detection_errors": gen_det, "sampling_dist": gen_dist, "ramsey": gen_ramsey, "drift": gen_drift}
+RUN = {"leak_sampling": run_leak, "state_prep": run_prep, "v2_duration": run_v2dur, "rabi": run_rabi, "zero_drive": run_zero, "bit_order": run_bits, "detection_errors": run_det, "sampling_dist": run_dist, "ramsey": run_ramsey, "drift": run_drift}
